@@ -102,3 +102,16 @@ pub proof fn lemma_number_end_l_bounds(s: Seq<u8>, p: int)
     let p2 = if s[p1] == 0x30 { p1 + 1 } else { digits_end(s, p1) };
     lemma_frac_exp_bounds(s, p2);
 }
+
+// ---- exact integers (used by unit `number` and by the callers of parse_number)
+// value of the decimal digits s[a..b)
+pub open spec fn dec_val(s: Seq<u8>, a: int, b: int) -> int
+    decreases b - a
+{
+    if b <= a { 0 } else { dec_val(s, a, b - 1) * 10 + (s[b - 1] as int - 0x30) }
+}
+// a plain integer literal (no leading zero, no fraction, no exponent) starts at p (p: first digit)
+pub open spec fn is_plain_int(s: Seq<u8>, p: int) -> bool {
+    let e = digits_end(s, p);
+    dig_at(s, p) && (s[p] != 0x30 || !dig_at(s, p + 1)) && !at(s, e, 0x2e) && !at(s, e, 0x65) && !at(s, e, 0x45)
+}
